@@ -23,6 +23,7 @@ import (
 
 type seqStats struct {
 	sizeCases, malformedCases int
+	steps                     int // Send calls + send-service steps + raw frames written
 	outcomes                  map[string]int
 }
 
@@ -233,6 +234,17 @@ func runRawCase(w *world, ctx string, rc rawCase) (string, []finding, string) {
 	return rc.class + ":" + state, fs, obs
 }
 
+func verdict(fs []finding) string {
+	if len(fs) == 0 {
+		return "ok"
+	}
+	var l []string
+	for _, f := range fs {
+		l = append(l, f.sig)
+	}
+	return strings.Join(l, ", ")
+}
+
 func containsMsg(got []delivered, m []byte) bool {
 	for _, d := range got {
 		if bytes.Equal(d.msg, m) {
@@ -247,6 +259,47 @@ func trunc(b []byte) string {
 		return string(b[:48]) + "…"
 	}
 	return string(b)
+}
+
+// runStopDuringReceive: the receive service has read the last packet of a 2-packet message from
+// the connection; before it gets to handle it, another goroutine stops the connection (what the
+// heartbeat goroutine does on a pong timeout, the send service on a write error, AddPeer when it
+// replaces a duplicate connection, P2P.Stop); then the receive service continues. No hook is
+// involved: the in-memory connection merely returns from Read late. Allowed outcomes: the whole
+// message or nothing.
+func runStopDuringReceive(w *world, topic lib.Topic, packets int) (string, []finding, string) {
+	w.free = true
+	w.setup(1, nil)
+	defer w.teardown()
+	l := w.links[0]
+	size := sz(packets, "exact")
+	op := &sendOp{Link: 0, Topic: topic, Size: size, msg: mkMessage(1, size)}
+	w.sendNow(op)
+	for i := 0; i < packets-1; i++ {
+		w.drain(qid{0, topic})
+	}
+	l.rconn.rd.armHold()
+	reached := l.rconn.rd.holdReached
+	if !l.drainer.DrainOne(topic) {
+		panic("c18 harness: nothing to drain")
+	}
+	<-reached // the last frame is completely read, the receive service has not handled it yet
+	l.rc.Stop()
+	close(l.rconn.rd.holdRelease)
+	l.rconn.rd.waitReaderDone()
+	got := w.readInboxes()
+	o := w.judge([]*sendOp{op}, got, func(*sendOp) bool { return false })
+	for i := range o.findings {
+		if o.findings[i].sig == "C18:truncated" {
+			o.findings[i].sig = "C18:truncated:stop-concurrent-with-receive"
+			o.findings[i].what += fmt.Sprintf(" — schedule: packets 1..%d of a %d-packet message handled; receive service reads packet %d from the connection; another goroutine calls MultiConn.Stop() (Stream.cleanup sets msgAssembler=nil); receive service handles packet %d (EOF) and delivers only its bytes", packets-1, packets, packets, packets)
+		}
+	}
+	class := "stop-during-receive:nothing-delivered"
+	if len(got) > 0 {
+		class = fmt.Sprintf("stop-during-receive:delivered-%d-bytes-of-%d", len(got[0].msg), size)
+	}
+	return class, o.findings, o.obs + fmt.Sprintf(" delivered=%d", len(got))
 }
 
 func runSequentialSmall(r *mc.Run, w *world) *seqStats {
@@ -264,7 +317,11 @@ func runSequentialSmall(r *mc.Run, w *world) *seqStats {
 				report(r, name, fs, obs)
 			}
 			st.sizeCases++
+			st.steps += 1 + packetsOf(n)
 			st.outcomes[class]++
+			if t == tX && n == 2*K.MaxDataChunkSize+1 {
+				r.AddSample(map[string]any{"family": "sequential size x topic", "case": name, "observation": obs, "verdict": verdict(fs)})
+			}
 		}
 	}
 	for _, ctx := range rawContexts {
@@ -280,7 +337,29 @@ func runSequentialSmall(r *mc.Run, w *world) *seqStats {
 				report(r, name, fs, obs)
 			}
 			st.malformedCases++
+			st.steps += len(rc.frames) + 2
 			st.outcomes[class]++
+			if ctx == "partial-message-pending" && rc.kind == "packet-on-undefined-topic-100" {
+				r.AddSample(map[string]any{"family": "sequential malformed / undefined-topic frames", "case": name, "observation": obs, "verdict": verdict(fs)})
+			}
+		}
+	}
+	for _, k := range []int{2, 3} {
+		name := fmt.Sprintf("stop-during-receive:%d:%d", tX, k)
+		class, fs, obs := runStopDuringReceive(w, tX, k)
+		if len(fs) > 0 {
+			for i := 0; i < 4; i++ {
+				if _, fs2, obs2 := runStopDuringReceive(w, tX, k); len(fs2) != len(fs) || obs2 != obs {
+					harnessError("sequential case %s does not reproduce identically:\n %s\n %s", name, obs, obs2)
+				}
+			}
+			report(r, name, fs, obs)
+		}
+		st.malformedCases++
+		st.steps += 2 + k
+		st.outcomes[class]++
+		if k == 2 {
+			r.AddSample(map[string]any{"family": "sequential stop during receive", "case": name, "observation": obs, "verdict": verdict(fs)})
 		}
 	}
 	// a sender-side Send on a topic without stream must be refused and put nothing on the wire
@@ -409,6 +488,13 @@ func replaySequential(r *mc.Run, w *world, name string) {
 				report(r, name, fs, obs)
 			}
 		}
+	case "stop-during-receive":
+		var t, k int
+		fmt.Sscanf(parts[1], "%d", &t)
+		fmt.Sscanf(parts[2], "%d", &k)
+		_, fs, obs := runStopDuringReceive(w, lib.Topic(t), k)
+		fmt.Println("  observation:", obs)
+		report(r, name, fs, obs)
 	case "limit":
 		for _, lc := range limitCases(false) {
 			if lc.name == strings.TrimPrefix(name, "limit:") {
